@@ -5,6 +5,7 @@ import RsyncModel.Driver.DeltaOps
 import RsyncModel.Driver.GenOps
 import RsyncModel.Driver.DeleteOps
 import RsyncModel.Driver.FlistOps
+import RsyncModel.Driver.WireOps
 open Driver
 
 def dispatch (line : String) : String :=
@@ -15,6 +16,7 @@ def dispatch (line : String) : String :=
   | op :: _ =>
     if op.startsWith "mux." then muxOp fs
     else if op == "acl" then aclOp fs
+    else if op.startsWith "i32." || op.startsWith "i64." then wireOp fs
     else if op == "clean" || op.startsWith "flist." then flistOp fs
     else if op == "delete" || op == "find" || op == "utf8" || op == "filter" then deleteOp fs
     else if op == "gen" || op == "genrecv" then genOp fs
